@@ -58,6 +58,7 @@ type Tree struct {
 	NoOverflow    bool                   `json:"no_overflow"` // premise: every consumer keeps its backlog below the buffer
 	GetCheck      bool                   `json:"get_check"`
 	LogYield      bool                   `json:"log_yield"`
+	Reuse         bool                   `json:"reuse,omitempty"` // the server keeps one live object per key and mutates it in place
 	BaseRV        int                    `json:"base_rv,omitempty"`
 	ShareHB       bool                   `json:"share_hb,omitempty"` // monitors' handlers come from one reused HandlerBuilder
 	Sim           SimCfg                 `json:"sim"`
@@ -124,6 +125,7 @@ func runTree(sci interface{}) {
 	setBufsiz(sc.Bufsiz)
 	srv := world.NewServer("pod")
 	srv.SetBaseRV(sc.BaseRV)
+	srv.Reuse = sc.Reuse
 	srv.F = world.NewFaults(sc.Faults)
 	for k, v := range sc.ListScript {
 		n := 0
@@ -257,6 +259,7 @@ func (t *treeRun) act(a TAct) {
 	case "release":
 		if srv.HoldFirstList != nil && !detsim.IsClosed(srv.HoldFirstList) {
 			srv.FailFirstList = a.Block // "release" with block=true means: the first list fails
+			srv.FailFirstKind = a.Kind  // ... in this way (a list-script kind)
 			if srv.FailFirstList {
 				t.listFailed = true
 			}
@@ -310,6 +313,16 @@ func (t *treeRun) act(a TAct) {
 	case "drain":
 		if n := t.node(a.Node); n != nil && n.Sub != nil && n.Mon == nil {
 			h.Drain(n)
+		}
+	case "drain-some":
+		// a slow consumer catches up a little, at a quiescent point, and stalls again
+		detsim.Settle()
+		if n := t.node(a.Node); n != nil && n.Sub != nil && n.Mon == nil && n.Reader == "stalled" {
+			detsim.HoldTime(true)
+			k := h.DrainSome(n, a.Ms)
+			detsim.HoldTime(false)
+			detsim.Count("probe:stalled-consumer-partial-drain")
+			_ = k
 		}
 	case "unblock":
 		if n := t.node(a.Node); n != nil && n.BlockHandler != nil && !detsim.IsClosed(n.BlockHandler) {
@@ -555,6 +568,37 @@ func (t *treeRun) stalledChecks() {
 		need := len(ref)
 		if need > capv {
 			need = capv
+		}
+		if len(n.DrainPoints) > 0 {
+			// replay the buffer: between two drain points it keeps what fits
+			// (drop-newest), a drain frees K slots
+			need = 0
+			b, i := 0, 0
+			var refSeq []int
+			for _, e := range w.Events {
+				if e.Seq > n.CreatedSeq {
+					refSeq = append(refSeq, e.Seq)
+				}
+			}
+			points := append(append([]world.DrainPoint(nil), n.DrainPoints...), world.DrainPoint{AtSeq: 1 << 60})
+			for _, p := range points {
+				seg := 0
+				for i < len(refSeq) && refSeq[i] <= p.AtSeq {
+					seg++
+					i++
+				}
+				kept := seg
+				if kept > capv-b {
+					kept = capv - b
+				}
+				need += kept
+				b += kept
+				if p.K < b {
+					b -= p.K
+				} else {
+					b = 0
+				}
+			}
 		}
 		if len(got) < need && !t.closedByScenario(n) {
 			detsim.Fail("stalled-consumer-lost-too-much", "%s (buffer %d) drained only %d events although %d were published after its creation: it may only lose what exceeds its buffer", n.Name(), capv, len(got), len(ref))
